@@ -5,9 +5,11 @@ import (
 
 	"github.com/glebziz/fs_db"
 	"github.com/glebziz/fs_db/internal/model"
+	"github.com/glebziz/fs_db/internal/verifhook"
 )
 
 func (r *Repo) Store(_ context.Context, tx model.Transaction) error {
+	verifhook.Point("txrepo.store")
 	_, ok := r.storage.Load(tx.Id)
 	if ok {
 		return fs_db.ErrTxAlreadyExists
